@@ -55,7 +55,7 @@ Definition subst1 (b u : tm) : tm := sub (scons u Var) b.
 
 Lemma ren_ext t : forall xi zeta, (forall i, xi i = zeta i) -> ren xi t = ren zeta t.
 Proof.
-  induction t as [o|s|i|f IHf x IHx|b IHb]; intros xi zeta E; cbn [ren]; auto.
+  induction t as [o|s|i|f IHf x IHx|b IHb]; intros xi zeta E; cbn [ren]; try reflexivity.
   - now rewrite E.
   - now rewrite (IHf _ _ E), (IHx _ _ E).
   - f_equal. apply IHb. intros [|j]; cbn [upr]; auto.
@@ -63,14 +63,15 @@ Qed.
 
 Lemma sub_ext t : forall sg tau, (forall i, sg i = tau i) -> sub sg t = sub tau t.
 Proof.
-  induction t as [o|s|i|f IHf x IHx|b IHb]; intros sg tau E; cbn [sub]; auto.
+  induction t as [o|s|i|f IHf x IHx|b IHb]; intros sg tau E; cbn [sub]; try reflexivity.
+  - apply E.
   - now rewrite (IHf _ _ E), (IHx _ _ E).
   - f_equal. apply IHb. intros [|j]; cbn [up]; auto. now rewrite E.
 Qed.
 
 Lemma ren_id t : forall xi, (forall i, xi i = i) -> ren xi t = t.
 Proof.
-  induction t as [o|s|i|f IHf x IHx|b IHb]; intros xi E; cbn [ren]; auto.
+  induction t as [o|s|i|f IHf x IHx|b IHb]; intros xi E; cbn [ren]; try reflexivity.
   - now rewrite E.
   - now rewrite (IHf _ E), (IHx _ E).
   - f_equal. apply IHb. intros [|j]; cbn [upr]; auto.
@@ -78,28 +79,29 @@ Qed.
 
 Lemma sub_id t : forall sg, (forall i, sg i = Var i) -> sub sg t = t.
 Proof.
-  induction t as [o|s|i|f IHf x IHx|b IHb]; intros sg E; cbn [sub]; auto.
+  induction t as [o|s|i|f IHf x IHx|b IHb]; intros sg E; cbn [sub]; try reflexivity.
+  - apply E.
   - now rewrite (IHf _ E), (IHx _ E).
   - f_equal. apply IHb. intros [|j]; cbn [up]; auto. now rewrite E.
 Qed.
 
 Lemma ren_ren t : forall xi zeta, ren xi (ren zeta t) = ren (fun i => xi (zeta i)) t.
 Proof.
-  induction t as [o|s|i|f IHf x IHx|b IHb]; intros xi zeta; cbn [ren]; auto.
+  induction t as [o|s|i|f IHf x IHx|b IHb]; intros xi zeta; cbn [ren]; try reflexivity.
   - now rewrite IHf, IHx.
   - f_equal. rewrite IHb. apply ren_ext. intros [|j]; reflexivity.
 Qed.
 
 Lemma sub_ren t : forall sg xi, sub sg (ren xi t) = sub (fun i => sg (xi i)) t.
 Proof.
-  induction t as [o|s|i|f IHf x IHx|b IHb]; intros sg xi; cbn [ren sub]; auto.
+  induction t as [o|s|i|f IHf x IHx|b IHb]; intros sg xi; cbn [ren sub]; try reflexivity.
   - now rewrite IHf, IHx.
   - f_equal. rewrite IHb. apply sub_ext. intros [|j]; reflexivity.
 Qed.
 
 Lemma ren_sub t : forall xi sg, ren xi (sub sg t) = sub (fun i => ren xi (sg i)) t.
 Proof.
-  induction t as [o|s|i|f IHf x IHx|b IHb]; intros xi sg; cbn [ren sub]; auto.
+  induction t as [o|s|i|f IHf x IHx|b IHb]; intros xi sg; cbn [ren sub]; try reflexivity.
   - now rewrite IHf, IHx.
   - f_equal. rewrite IHb. apply sub_ext. intros [|j]; cbn [up upr ren]; auto.
     rewrite !ren_ren. apply ren_ext. reflexivity.
@@ -107,7 +109,7 @@ Qed.
 
 Lemma sub_sub t : forall sg tau, sub sg (sub tau t) = sub (fun i => sub sg (tau i)) t.
 Proof.
-  induction t as [o|s|i|f IHf x IHx|b IHb]; intros sg tau; cbn [sub]; auto.
+  induction t as [o|s|i|f IHf x IHx|b IHb]; intros sg tau; cbn [sub]; try reflexivity.
   - now rewrite IHf, IHx.
   - f_equal. rewrite IHb. apply sub_ext. intros [|j]; cbn [up sub]; auto.
     rewrite sub_ren, ren_sub. apply sub_ext. reflexivity.
@@ -115,7 +117,7 @@ Qed.
 
 Lemma ren_as_sub t : forall xi, ren xi t = sub (fun i => Var (xi i)) t.
 Proof.
-  induction t as [o|s|i|f IHf x IHx|b IHb]; intros xi; cbn [ren sub]; auto.
+  induction t as [o|s|i|f IHf x IHx|b IHb]; intros xi; cbn [ren sub]; try reflexivity.
   - now rewrite IHf, IHx.
   - f_equal. rewrite IHb. apply sub_ext. intros [|j]; reflexivity.
 Qed.
@@ -148,7 +150,7 @@ Definition closed (t : tm) : Prop := closed_at 0 t = true.
 Lemma sub_closed_at t : forall k sg, closed_at k t = true ->
   (forall i, i < k -> sg i = Var i) -> sub sg t = t.
 Proof.
-  induction t as [o|s|i|f IHf x IHx|b IHb]; intros k sg C E; cbn [sub closed_at] in *; auto.
+  induction t as [o|s|i|f IHf x IHx|b IHb]; intros k sg C E; cbn [sub closed_at] in *; try reflexivity.
   - apply E. now apply Nat.ltb_lt.
   - apply andb_true_iff in C. destruct C as [Cf Cx].
     now rewrite (IHf _ _ Cf E), (IHx _ _ Cx E).
@@ -164,7 +166,7 @@ Proof. intros C. rewrite ren_as_sub. now apply sub_closed. Qed.
 
 Lemma closed_at_mono t : forall k k', k <= k' -> closed_at k t = true -> closed_at k' t = true.
 Proof.
-  induction t as [o|s|i|f IHf x IHx|b IHb]; intros k k' Hle C; cbn [closed_at] in *; auto.
+  induction t as [o|s|i|f IHf x IHx|b IHb]; intros k k' Hle C; cbn [closed_at] in *; try reflexivity.
   - apply Nat.ltb_lt in C. apply Nat.ltb_lt. lia.
   - apply andb_true_iff in C. destruct C. apply andb_true_iff. eauto.
   - apply (IHb (S k)); auto. lia.
